@@ -9,16 +9,13 @@ import vl
 
 NAMES = [
     ("merge_and_add_assign_binwise", "merge_add_assign.binwise_equal_edges_kept", "<Histogram as Merge>::merge / AddAssign::add_assign"),
-    ("merge_total_adds_commutes", "merge.total_adds_commutes", "<Histogram as Merge>::merge"),
+    ("merge_commutes", "merge.commutes", "<Histogram as Merge>::merge"),
     ("merge_empty_identity", "merge.empty_identity_and_reset", "merge/reset"),
     ("merge_mismatch_panics", "merge.mismatch_panics", "<Histogram as Merge>::merge", True),
     ("add_assign_mismatch_panics", "add_assign.mismatch_panics", "AddAssign::add_assign", True),
-    ("mul_assign_binwise", "mul_assign.binwise", "MulAssign::mul_assign"),
     ("iter_items", "iter.items_len_order", "iter/into_iter/IterHistogram::next"),
-    ("views_widths_centers", "views.widths_centers_bits", "widths/centers"),
-    ("views_normalized", "views.normalized_bins_bits", "normalized_bins"),
-    ("views_variances", "views.variance_eq_variances_bits", "variance/variances/multinomial_variance"),
 ]
+MUL = [("mul_assign_binwise", "mul_assign.binwise", "MulAssign::mul_assign")]
 
 PANICKY = ("assert", "assert_eq", "assert_ne", "panic", "unreachable", "todo", "unimplemented")
 
@@ -107,8 +104,10 @@ def structural(prop):
 
 def run(tier, seed):
     lens = [1, 2, 3, 4] if tier == "quick" else [1, 2, 3, 4, 10]
-    job = hist_job("C13", lens, NAMES, unwind=14, timeout=900, harness_timeout=200)
+    job = hist_job("C13", lens, NAMES, unwind=14, timeout=900, harness_timeout=300)
     obs = job.run()
+    mul_lens = [1, 2] if tier == "quick" else [1, 2, 3, 4]
+    obs += hist_job("C13", mul_lens, MUL, unwind=14, timeout=1200, harness_timeout=600).run()
     if tier == "thorough":
         obs += hist_const_job("C13", [1, 3], NAMES, unwind=8).run()
     obs += structural("C13")
